@@ -9,7 +9,7 @@ from PEPit import PEP, Point, Expression, Constraint, Function, PSDMatrix, Block
 from PEPit.wrapper import Wrapper
 import PEPit.functions as PF, PEPit.operators as PO
 
-DRIVER = os.environ.get("PEPV_DRIVER", "/tmp/scratch/pv/PepitVerif/.lake/build/bin/driver")
+DRIVER = os.environ.get("PEPV_DRIVER", os.path.join(os.path.dirname(os.path.abspath(__file__)), "..", "lean", ".lake", "build", "bin", "driver"))
 
 
 # ------------------------------------------------------------------ canonical text
